@@ -638,7 +638,9 @@ mod derived {
 
 /// a document shaped for `derived::Top` (sometimes with a missing / duplicated / ill-typed field)
 fn gen_top_doc(rng: &mut Rng) -> Vec<u8> {
-    let word = |rng: &mut Rng| -> String { (0..rng.range(1, 7)).map(|_| (b'a' + rng.below(26) as u8) as char).collect() };
+    // mostly ASCII; now and then a character outside ASCII, so that the two encodings (and a convenience
+    // constructor that picks the wrong one) are told apart
+    let word = |rng: &mut Rng| -> String { (0..rng.range(1, 7)).map(|_| if rng.chance(1, 9) { *rng.pick(&['\u{e9}', '\u{df}', '\u{3a9}', '\u{20ac}', '\u{153}', '\u{81}']) } else { (b'a' + rng.below(26) as u8) as char }).collect() };
     let unit = |rng: &mut Rng| -> String {
         let mut s = format!("x={}", rng.below(2000) as i64 - 1000);
         if rng.chance(1, 2) { s += &format!(" y={}.{:03}", rng.below(50), rng.below(1000)); }
@@ -651,7 +653,9 @@ fn gen_top_doc(rng: &mut Rng) -> Vec<u8> {
     fields.push(format!("id={}", rng.below(100000)));
     if rng.chance(1, 2) { fields.push(format!("core=\"{}\\\"{}\"", word(rng), word(rng))); }
     fields.push(format!("flags={{ {} }}", (0..rng.below(4)).map(|_| word(rng)).collect::<Vec<_>>().join(" ")));
-    let mut keys: Vec<String> = (0..rng.below(4)).map(|_| word(rng)).collect();
+    // map keys stay ASCII: the derived side prints a HashMap sorted by decoded key, the Ty interpreter in document
+    // order, and the two orders only coincide when decoding preserves the byte order of the keys
+    let mut keys: Vec<String> = (0..rng.below(4)).map(|_| (0..rng.range(1, 7)).map(|_| (b'a' + rng.below(26) as u8) as char).collect::<String>()).collect();
     keys.sort(); keys.dedup();
     fields.push(format!("army={{ {} }}", keys.iter().map(|k| format!("{}={}", k, rng.below(500) as i64 - 250)).collect::<Vec<_>>().join(" ")));
     fields.push(format!("unit={{ {} }}", unit(rng)));
@@ -673,7 +677,7 @@ fn gen_top_doc(rng: &mut Rng) -> Vec<u8> {
 }
 
 fn gen_dup_doc(rng: &mut Rng) -> Vec<u8> {
-    let word = |rng: &mut Rng| -> String { (0..rng.range(1, 5)).map(|_| (b'a' + rng.below(26) as u8) as char).collect() };
+    let word = |rng: &mut Rng| -> String { (0..rng.range(1, 5)).map(|_| if rng.chance(1, 9) { *rng.pick(&['\u{e9}', '\u{df}', '\u{3a9}', '\u{20ac}', '\u{153}']) } else { (b'a' + rng.below(26) as u8) as char }).collect() };
     let mut fields: Vec<String> = (0..rng.below(4)).map(|_| format!("core={}", word(rng))).collect();
     if rng.chance(2, 3) { fields.push(format!("id={}", rng.below(1000))); }
     if rng.chance(9, 10) { fields.push(format!("name={}", word(rng))); }
